@@ -1,6 +1,7 @@
 package kvsim
 
 import (
+	"database/sql"
 	"encoding/json"
 	"errors"
 	"fmt"
@@ -8,6 +9,7 @@ import (
 	"log"
 	"os"
 	"path/filepath"
+	"runtime/debug"
 	"sort"
 	"strings"
 
@@ -15,7 +17,7 @@ import (
 	"perkeep.org/pkg/sorted"
 	"perkeep.org/pkg/sorted/buffer"
 	_ "perkeep.org/pkg/sorted/kvfile"
-	_ "perkeep.org/pkg/sorted/leveldb"
+	lvdb "perkeep.org/pkg/sorted/leveldb"
 	_ "perkeep.org/pkg/sorted/sqlite"
 
 	"verif/harness"
@@ -41,6 +43,7 @@ type rop struct {
 	muts     []rmut
 	s, e     string
 	n        int
+	poison   int
 }
 
 type rmut struct {
@@ -87,7 +90,7 @@ func materialise(raw []json.RawMessage) ([]rop, error) {
 		if err := json.Unmarshal(b, &op); err != nil {
 			return nil, err
 		}
-		o := rop{kind: op.K, n: op.N}
+		o := rop{kind: op.K, n: op.N, poison: op.Poison}
 		var err error
 		get := func(s *Str) string {
 			v, e := s.Bytes()
@@ -104,7 +107,7 @@ func materialise(raw []json.RawMessage) ([]rop, error) {
 			return nil, err
 		}
 		switch o.kind {
-		case "get", "set", "del", "batch", "find", "flush", "reopen":
+		case "get", "set", "del", "batch", "find", "flush", "reopen", "compact":
 		default:
 			return nil, fmt.Errorf("unknown op kind %q", o.kind)
 		}
@@ -173,6 +176,18 @@ type run struct {
 	cur    int // op index
 	prog   progress
 	closed bool
+}
+
+// sqliteExec runs a statement on the sqlite file of the store under test
+// through a second connection (the store is idle between operations).
+func (x *run) sqliteExec(stmt string) error {
+	db, err := sql.Open("sqlite", filepath.Join(x.s.rc.Scratch, "c10.sqlite"))
+	if err != nil {
+		return err
+	}
+	defer db.Close()
+	_, err = db.Exec(stmt)
+	return err
 }
 
 func (x *run) viol(class, detail string) *harness.Violation {
@@ -339,6 +354,18 @@ func (x *run) step(op *rop) *harness.Violation {
 		}
 		x.modelDel(op.key)
 	case "batch":
+		poisoned := false
+		if op.poison > 0 && op.poison <= len(op.muts) && x.cfg.Impl == "sqlite" && !x.cfg.Buffered {
+			// fault injection below perkeep's code: a trigger in the real
+			// database aborts the INSERT of the poison key, i.e. one
+			// statement fails in the middle of the batch's transaction
+			if err := x.sqliteExec(fmt.Sprintf("CREATE TRIGGER verif_fault BEFORE INSERT ON rows WHEN NEW.k = '%s' BEGIN SELECT RAISE(ABORT, 'injected statement failure'); END", op.muts[op.poison-1].key)); err == nil {
+				poisoned = true
+				x.reach["batch-statement-failure-injected"]++
+			} else {
+				x.reach["batch-statement-failure-NOT-injected:"+err.Error()]++
+			}
+		}
 		x.prog.at(op.String() + ": BeginBatch")
 		b := kv.BeginBatch()
 		first := map[string]bool{} // key -> first mutation was a delete
@@ -361,7 +388,24 @@ func (x *run) step(op *rop) *harness.Violation {
 			}
 		}
 		x.prog.at(op.String() + ": CommitBatch")
-		if err := kv.CommitBatch(b); err != nil {
+		err := kv.CommitBatch(b)
+		if poisoned {
+			if derr := x.sqliteExec("DROP TRIGGER verif_fault"); derr != nil {
+				x.out.Inconclusive = "could not drop the fault trigger: " + derr.Error()
+				return nil
+			}
+			if err != nil {
+				// refused: then nothing of the batch may be there
+				x.reach["batch-failed-atomically"]++
+				if v := x.scan(kv, "", "", -1, "batch-not-atomic", op.String()+": CommitBatch failed ("+err.Error()+"), so nothing of the batch may be applied; full scan"); v != nil {
+					return v
+				}
+				break
+			}
+			// reported as committed: then everything must be there (checked
+			// by the model below and the scans that follow)
+		}
+		if err != nil {
 			return x.viol("batch-error", fmt.Sprintf("%s: CommitBatch returned %v", op, err))
 		}
 		for _, m := range op.muts {
@@ -393,6 +437,18 @@ func (x *run) step(op *rop) *harness.Violation {
 			return nil
 		}
 		return x.reopen("reopen")
+	case "compact":
+		// goleveldb moves tables between levels on its own goroutines at a
+		// time no plan decides; doing it here makes the layout a function
+		// of the plan. Contents must be unaffected.
+		x.prog.at("compact")
+		ok, err := lvdb.VerifCompact(x.s.base)
+		if err != nil {
+			return x.viol("compact-error", fmt.Sprintf("CompactRange returned %v", err))
+		}
+		if ok {
+			x.reach["leveldb-compacted"]++
+		}
 	}
 	return nil
 }
@@ -402,6 +458,9 @@ func (x *run) step(op *rop) *harness.Violation {
 func (x *run) guarded(kind string, f func() *harness.Violation) (v *harness.Violation) {
 	defer func() {
 		if r := recover(); r != nil {
+			if os.Getenv("VERIF_LOG") != "" {
+				fmt.Fprintf(os.Stderr, "kvsim: panic %v\n%s\n", r, debug.Stack())
+			}
 			v = x.viol(kind+"-panic", fmt.Sprintf("panic %q during %s", fmt.Sprint(r), x.prog.where()))
 		}
 	}()
@@ -458,6 +517,9 @@ func shapeKey(cfg *Config, ops []rop) string {
 		}
 		if op.kind == "flush" {
 			c = "F"
+		}
+		if op.kind == "compact" {
+			c = "C"
 		}
 		sb.WriteString(c)
 	}
